@@ -34,6 +34,7 @@ from ..type import (
 __all__ = ["ast_from_value"]
 
 _re_integer_string = re.compile("^-?(?:0|[1-9][0-9]*)$")
+_re_surrogate = re.compile("[\\ud800-\\udfff]")  # cannot be written in a StringValue
 
 
 def ast_from_value(value: Any, type_: GraphQLInputType) -> ConstValueNode | None:
@@ -133,7 +134,8 @@ def ast_from_value(value: Any, type_: GraphQLInputType) -> ConstValueNode | None
             if type_ is GraphQLID and _re_integer_string.match(coerced):
                 return IntValueNode(value=coerced)
 
-            return StringValueNode(value=coerced)
+            if not _re_surrogate.search(coerced):
+                return StringValueNode(value=coerced)
 
         msg = f"Cannot convert value to AST: {inspect(coerced)}."
         raise TypeError(msg)
